@@ -9,6 +9,7 @@ import IocProofs.Lemmas.MatchPoint
 import IocProofs.Lemmas.MatchNaming
 import IocProofs.Lemmas.MatchExamples
 import IocProofs.Lemmas.SemDiscover
+import IocProofs.Lemmas.SemMeta
 namespace Ioc.C07
 open Ioc Ioc.Tag Ioc.Match
 
@@ -124,5 +125,44 @@ theorem C07_code_by_name (pop : List Match.Prov) (byName : String → Option Nat
   have : (p.tagVal == "") = false := by simpa using hn
   simp only [Sem.discoverWire, hw, this, bne_self_eq_false, Bool.false_eq_true, if_false]
   cases p.kind <;> rfl
+
+/-! ### the REGENERATED naming helper and definition methods (component.go, meta.go)
+
+    Under the interpretation Ioc.SemMeta: a component is registered under its custom name when `Naming()` answers a non-empty
+    text, else under the type-derived id — asked of the component ITSELF on every call (nothing remembers an earlier answer);
+    a definition's `Name()` is its alias when it has one; `SetProperties` appends EVERY property it is handed to the group of its
+    type, in order (no property is dropped for sharing a Go field name or a tag with an earlier one). -/
+section naming
+open Ioc.Go Ioc.Sem
+
+theorem C07_code_GetComponentNameWithAlias (tyName : Nat → String) (naming namingZero : Nat → Option String) (i : Nat) :
+    run (namePrims tyName naming namingZero) Progs.name_GetComponentNameWithAlias [.ref i 50] () =
+      some (.tuple [.str (tyName i), .str ((naming i).getD "")], ()) ∧
+    run (namePrims tyName naming namingZero) Progs.name_GetComponentNameWithAlias [.ref i 10] () =
+      some (.tuple [.str (tyName i), .str ((naming i).getD "")], ()) ∧
+    run (namePrims tyName naming namingZero) Progs.name_GetComponentNameWithAlias [.ref i 11] () =
+      some (.tuple [.str (tyName i), .str ((namingZero i).getD "")], ()) :=
+  ⟨(nameWithAlias_component_sem tyName naming namingZero i).1, (nameWithAlias_component_sem tyName naming namingZero i).2,
+   nameWithAlias_type_sem tyName naming namingZero i⟩
+
+theorem C07_code_GetComponentName (n a : String) (t : Go.Val) :
+    run (name2Prims n a) Progs.name_GetComponentName [t] () = some (.str (if a != "" then a else n), ()) :=
+  componentName_sem n a t
+
+theorem C07_code_meta_names (idOf nameOf : Nat → String) (isComp : Nat → Bool) (n : String) (w : MW) :
+    run (metaPrims idOf nameOf isComp) Progs.meta_Name [] w = some (.str (if w.alias != "" then w.alias else w.name), w) ∧
+    run (metaPrims idOf nameOf isComp) Progs.meta_IsAlias [] w = some (.bool (w.alias != ""), w) ∧
+    run (metaPrims idOf nameOf isComp) Progs.meta_SetName [.str n] w =
+      some (.tuple [], if n != w.name then { w with alias := n } else w) :=
+  ⟨metaName_sem idOf nameOf isComp w, metaIsAlias_sem idOf nameOf isComp w, metaSetName_sem idOf nameOf isComp n w⟩
+
+theorem C07_code_SetProperties (idOf nameOf : Nat → String) (isComp : Nat → Bool) (ps : List Nat) (w : MW) :
+    run (metaPrims idOf nameOf isComp) Progs.meta_SetProperties [.list (ps.map (fun i => Go.Val.ref i 20))] w =
+      some (.tuple [], { w with comp := w.comp ++ ps.filter isComp, conf := w.conf ++ ps.filter (fun i => !isComp i) }) ∧
+    run (metaPrims idOf nameOf isComp) Progs.meta_GetComponentProperties [] w = some (encProps w.comp, w) :=
+  ⟨metaSetProperties_sem idOf nameOf isComp ps w, metaGetComponentProperties_sem idOf nameOf isComp w⟩
+
+end naming
+
 
 end Ioc.C07
